@@ -748,3 +748,386 @@ Theorem bodiless_extra_bytes_refuted :
   let '(cf, (stream, closed)) := relay (w_head 204 false) true [OSeg [71;71;71]; OEof] 4096 in
   cf = CNoBody /\ closed = false /\ ref_read cf stream closed = ([], true, [71;71;71]).
 Proof. vm_compute. repeat split. Qed.
+
+(* ====================================================================================================== *)
+(* 6. request direction                                                                                    *)
+(* ====================================================================================================== *)
+Definition produced (q : rq) : bytes := concat (q_pieces q) ++ q_buf q.
+
+(* bytes the client connection has delivered so far *)
+Definition fed_of (evs : list qev) : bytes :=
+  concat (map (fun e => match e with QSeg b => b | _ => [] end) evs).
+
+Definition rq_from (cap : N) (up : upmode) (q : rq) (evs : list qev) : rq := fold_left (rq_step cap up) evs q.
+
+(* ---- A. counters, FIFO bookkeeping, notification flags ---- *)
+Record invA (q : rq) : Prop := {
+  a_get : lenN (concat (q_pieces q)) = q_get q;
+  a_put : q_get q + lenN (q_buf q) = q_put q;
+  a_ne : Forall nonempty (q_pieces q);
+  a_whole : q_whole q = true -> q_prod q = false /\ q_size q = Some (q_put q);
+  a_abort : q_abort q = true -> q_prod q = false /\ q_size q <> Some (q_put q);
+  a_last : q_last q = true -> q_whole q = true /\ q_buf q = [] }.
+
+Lemma invA_init clen : invA (rq_init clen).
+Proof. constructor; cbn; try discriminate; auto. Qed.
+
+Lemma concat_snoc (l : list bytes) (x : bytes) : concat (l ++ [x]) = concat l ++ x.
+Proof. rewrite concat_app. cbn. now rewrite app_nil_r. Qed.
+
+Lemma intake_prod_false cap q : q_prod q = false -> intake cap q = q.
+Proof. intros H. unfold intake. now rewrite H. Qed.
+
+Lemma intake_invA cap q : invA q -> invA (intake cap q).
+Proof.
+  intros I. destruct (q_prod q) eqn:P; [|now rewrite intake_prod_false].
+  assert (W : q_whole q = false) by (destruct (q_whole q) eqn:W; [destruct (a_whole q I W); congruence|reflexivity]).
+  assert (Ab : q_abort q = false) by (destruct (q_abort q) eqn:Ab; [destruct (a_abort q I Ab); congruence|reflexivity]).
+  assert (L : q_last q = false) by (destruct (q_last q) eqn:L; [destruct (a_last q I L); congruence|reflexivity]).
+  unfold intake. rewrite P. cbn [negb].
+  destruct (q_chunked_in q).
+  - destruct (q_inbuf q) as [|c r] eqn:Ein; [exact I|]. rewrite <- Ein.
+    destruct (crun_cap (pipe_space cap (q_buf q)) (q_dec q) (q_inbuf q)) as [[d out] rest].
+    destruct (cst_err d).
+    + constructor; cbn; try (rewrite ?W, ?Ab, ?L; discriminate); try apply I.
+    + constructor; cbn; try (rewrite ?W, ?Ab, ?L; discriminate); try apply I.
+      rewrite lenN_app. destruct I as [_ Hp _ _ _ _]. lia.
+  - constructor; cbn; try (rewrite ?W, ?Ab, ?L; discriminate); try apply I.
+    rewrite lenN_app, lenN_takeN. destruct I as [_ Hp _ _ _ _].
+    set (sz := N.min (N.min (lenN (q_inbuf q)) match q_size q with Some n => n - q_put q | None => 0 end)
+                     (pipe_space cap (q_buf q))). lia.
+Qed.
+
+Lemma step_invA cap up q e : invA q -> invA (rq_step cap up q e).
+Proof.
+  intros I. destruct e; cbn [rq_step].
+  - apply intake_invA. destruct I; constructor; cbn; auto.
+  - now apply intake_invA.
+  - destruct (q_prod q) eqn:P; [|exact I].
+    assert (W : q_whole q = false) by (destruct (q_whole q) eqn:W; [destruct (a_whole q I W); congruence|reflexivity]).
+    assert (Ab : q_abort q = false) by (destruct (q_abort q) eqn:Ab; [destruct (a_abort q I Ab); congruence|reflexivity]).
+    assert (L : q_last q = false) by (destruct (q_last q) eqn:L; [destruct (a_last q I L); congruence|reflexivity]).
+    constructor; cbn; try (rewrite ?W, ?Ab, ?L; discriminate); try apply I.
+  - destruct (q_prod q) eqn:P; [exact I|].
+    constructor; cbn; try apply I.
+    + intros H. split; [reflexivity|]. apply orb_prop in H. destruct H as [H|H]; [now apply (a_whole q I)|].
+      destruct (q_size q) as [n|]; [|discriminate]. apply N.eqb_eq in H. now subst.
+    + intros H. split; [reflexivity|]. apply orb_prop in H. destruct H as [H|H]; [now apply (a_abort q I)|].
+      destruct (q_size q) as [n|]; [|discriminate]. intros E. inversion E; subst. rewrite N.eqb_refl in H. discriminate.
+    + intros H. destruct (a_last q I H) as [H1 H2]. now rewrite H1.
+  - destruct (q_abort q) eqn:Ab; [exact I|].
+    destruct (q_buf q) as [|c r] eqn:B.
+    + destruct up; [exact I|]. destruct (q_whole q && negb (q_last q)) eqn:E; [|exact I].
+      apply andb_prop in E. destruct E as [W _].
+      constructor; cbn; try apply I; try discriminate; try (rewrite Ab; discriminate).
+      * destruct I as [_ Hp _ _ _ _]. now rewrite B in Hp.
+      * auto.
+    + constructor; cbn [q_pieces q_get q_buf q_put q_whole q_prod q_size q_abort q_last].
+      * rewrite concat_snoc, lenN_app. destruct I as [Hg _ _ _ _ _]. now rewrite Hg.
+      * destruct I as [_ Hp _ _ _ _]. rewrite B in Hp. cbn [lenN] in *. lia.
+      * apply Forall_app. split; [apply I|]. constructor; [discriminate|constructor].
+      * apply I.
+      * discriminate.
+      * intros H. split; [|reflexivity]. destruct up; [now apply (a_last q I)|].
+        apply orb_prop in H. destruct H as [H|H]; [now apply (a_last q I)|exact H].
+Qed.
+
+Lemma run_invA cap up evs : forall q, invA q -> invA (rq_from cap up q evs).
+Proof.
+  induction evs as [|e evs IH]; intros q I; [exact I|].
+  unfold rq_from in *. cbn [fold_left]. apply IH. now apply step_invA.
+Qed.
+
+(* FIFO: at every moment of every schedule, what the server side took out of the pipe followed by what is still
+   buffered is exactly what was put in, and the counters are the lengths *)
+Theorem bodypipe_fifo cap up clen evs :
+  let q := rq_run cap up clen evs in
+  lenN (concat (q_pieces q)) = q_get q /\ lenN (produced q) = q_put q /\ q_get q <= q_put q /\
+  Forall nonempty (q_pieces q).
+Proof.
+  intros q. assert (I : invA q) by (apply run_invA, invA_init).
+  destruct I as [Hg Hp Hn _ _ _]. unfold produced. rewrite lenN_app, Hg. repeat split; auto; lia.
+Qed.
+
+(* the upstream byte stream is validly framed at every moment *)
+Theorem upstream_framing_valid cap up clen evs :
+  let q := rq_run cap up clen evs in
+  match up with
+  | UpChunked => crun CSize0 (up_stream UpChunked q) = (if q_last q then CDone else CSize0, concat (q_pieces q), [])
+  | UpLen n => up_stream (UpLen n) q = concat (q_pieces q)
+  end.
+Proof.
+  intros q. assert (I : invA q) by (apply run_invA, invA_init).
+  destruct up; [reflexivity|]. unfold up_stream, up_chunk. destruct (q_last q).
+  - rewrite last_chunk_enc.
+    assert (R := chunked_roundtrip false [] (q_pieces q) [] [] eq_refl (a_ne q I) eq_refl).
+    unfold enc_chunked in R. now rewrite app_nil_r in R.
+  - rewrite app_nil_r. apply chunks_without_last; [reflexivity|apply I].
+Qed.
+
+(* last-chunk goes out only after the end notification, with nothing left in the pipe *)
+Theorem last_chunk_only_when_whole cap up clen evs :
+  let q := rq_run cap up clen evs in
+  q_last q = true -> q_whole q = true /\ q_buf q = [] /\ q_prod q = false /\ q_size q = Some (q_put q) /\
+                     lenN (concat (q_pieces q)) = q_put q.
+Proof.
+  intros q H. assert (I : invA q) by (apply run_invA, invA_init).
+  destruct (a_last q I H) as [W B]. destruct (a_whole q I W) as [P S].
+  repeat split; auto. destruct I as [Hg Hp _ _ _ _]. rewrite B in Hp. cbn [lenN] in Hp. lia.
+Qed.
+
+(* ---- B. what was produced is a prefix of the client's body as the reference reader decodes it ---- *)
+Lemma crun_cap_split : forall l cap s s' out rest,
+  crun_cap cap s l = (s', out, rest) -> exists used, l = used ++ rest /\ crun s used = (s', out, []).
+Proof.
+  induction l as [|c r IH]; intros cap s s' out rest H.
+  - cbn [crun_cap] in H. inversion H; subst. exists []. auto.
+  - cbn [crun_cap] in H. destruct (cst_final s) eqn:F.
+    + inversion H; subst. exists []. auto.
+    + assert (G : forall cap', (let '(s1, o1) := cstep s c in
+                                let '(s2, o2, rest0) := crun_cap cap' s1 r in (s2, o1 ++ o2, rest0)) = (s', out, rest) ->
+                  exists used, c :: r = used ++ rest /\ crun s used = (s', out, [])).
+      { intros cap' H'. destruct (cstep s c) as [s1 o1] eqn:Es.
+        destruct (crun_cap cap' s1 r) as [[s2 o2] rest0] eqn:Ec. inversion H'; subst.
+        destruct (IH _ _ _ _ _ Ec) as [used [Hu Hr]]. exists (c :: used). split; [cbn; now rewrite <- Hu|].
+        rewrite crun_cons by exact F. rewrite Es, Hr. reflexivity. }
+      destruct s; try (now apply (G cap)); try discriminate.
+      destruct (cap =? 0); [inversion H; subst; exists []; auto|now apply (G (cap - 1))].
+Qed.
+
+Definition invB (clen : option N) (q : rq) (fed : bytes) : Prop :=
+  match clen with
+  | Some n =>
+      q_chunked_in q = false /\ q_size q = Some n /\ q_put q <= n /\
+      exists rest, fed = produced q ++ rest /\ (q_prod q = true -> rest = q_inbuf q /\ q_put q < n)
+  | None =>
+      q_chunked_in q = true /\
+      exists consumed rest dd, fed = consumed ++ rest /\ crun CSize0 consumed = (dd, produced q, []) /\
+        (q_prod q = true -> rest = q_inbuf q /\ dd = q_dec q /\ cst_final dd = false /\ q_size q = None) /\
+        (q_prod q = false -> (q_size q = Some (q_put q) /\ dd = CDone) \/ q_size q = None)
+  end.
+
+Lemma invB_init clen : match clen with Some n => 1 <= n | None => True end -> invB clen (rq_init clen) [].
+Proof.
+  destruct clen as [n|]; intros H; cbn.
+  - split; [reflexivity|]. split; [reflexivity|]. split; [lia|]. exists []. split; [reflexivity|].
+    intros _. split; [reflexivity|lia].
+  - split; [reflexivity|]. exists [], [], CSize0. split; [reflexivity|]. split; [reflexivity|].
+    split; [auto|discriminate].
+Qed.
+
+Lemma intake_invB cap clen q fed : invA q -> invB clen q fed -> invB clen (intake cap q) fed.
+Proof.
+  intros IA IB. destruct (q_prod q) eqn:P; [|now rewrite intake_prod_false].
+  unfold intake. rewrite P. cbn [negb]. destruct clen as [n|]; cbn [invB] in *.
+  - destruct IB as [Hm [Hs [Hle [rest [Hf Hp]]]]]. rewrite Hm. destruct (Hp P) as [Hr Hlt]. subst rest.
+    rewrite Hs. set (sz := N.min (N.min (lenN (q_inbuf q)) (n - q_put q)) (pipe_space cap (q_buf q))).
+    cbn [q_chunked_in q_size q_put q_prod q_inbuf]. repeat split; try lia.
+    exists (dropN sz (q_inbuf q)). split.
+    + unfold produced. cbn [q_pieces q_buf]. rewrite Hf. unfold produced.
+      rewrite <- !app_assoc. now rewrite takeN_dropN.
+    + intros Hprod. split; [reflexivity|]. destruct (sz =? 0) eqn:E.
+      * apply N.eqb_eq in E. lia.
+      * apply N.ltb_lt in Hprod. exact Hprod.
+  - destruct IB as [Hm [consumed [rest [dd [Hf [Hc [Hp Hnp]]]]]]]. rewrite Hm.
+    destruct (Hp P) as [Hr [Hd [Hfin Hsz]]]. subst rest dd.
+    destruct (q_inbuf q) as [|c r] eqn:Ein.
+    + split; [exact Hm|]. exists consumed, [], (q_dec q). rewrite Ein in *. repeat split; auto.
+    + rewrite <- Ein in *.
+      destruct (crun_cap (pipe_space cap (q_buf q)) (q_dec q) (q_inbuf q)) as [[d out] rest'] eqn:Ecap.
+      destruct (crun_cap_split _ _ _ _ _ _ Ecap) as [used [Hu Hrun]].
+      destruct (cst_err d) eqn:Eerr.
+      * cbn [invB q_chunked_in]. split; [reflexivity|]. exists consumed, (q_inbuf q), (q_dec q).
+        unfold produced. cbn [q_pieces q_buf q_prod q_size q_put]. repeat split; auto; try discriminate.
+      * cbn [q_chunked_in]. split; [reflexivity|]. exists (consumed ++ used), rest', d.
+        unfold produced. cbn [q_pieces q_buf q_prod q_size q_put q_inbuf q_dec]. split; [|split; [|split]].
+        -- rewrite Hf, Hu. now rewrite app_assoc.
+        -- rewrite crun_app, Hc. cbn [app]. rewrite Hrun. unfold produced. now rewrite app_assoc.
+        -- intros Hprod. apply negb_true_iff in Hprod. rewrite Hprod. repeat split; auto.
+           destruct d; try discriminate; reflexivity.
+        -- intros Hprod. apply negb_false_iff in Hprod. rewrite Hprod. left. split; [reflexivity|].
+           destruct d; try discriminate; reflexivity.
+Qed.
+
+Definition ev_bytes (e : qev) : bytes := match e with QSeg b => b | _ => [] end.
+
+Lemma step_invB cap up clen q fed e :
+  invA q -> invB clen q fed -> invB clen (rq_step cap up q e) (fed ++ ev_bytes e).
+Proof.
+  intros IA IB. destruct e; cbn [rq_step ev_bytes]; rewrite ?app_nil_r.
+  - (* QSeg *)
+    apply intake_invB.
+    + destruct IA; constructor; cbn; auto.
+    + destruct clen as [n|]; cbn [invB] in *.
+      * destruct IB as [Hm [Hs [Hle [rest [Hf Hp]]]]]. cbn [q_chunked_in q_size q_put q_prod q_inbuf].
+        repeat split; auto. exists (rest ++ b). split; [unfold produced in *; cbn [q_pieces q_buf]; rewrite Hf; now rewrite app_assoc|].
+        intros Hprod. destruct (Hp Hprod) as [Hr Hlt]. now subst.
+      * destruct IB as [Hm [consumed [rest [dd [Hf [Hc [Hp Hnp]]]]]]]. cbn [q_chunked_in]. split; [exact Hm|].
+        exists consumed, (rest ++ b), dd. unfold produced in *. cbn [q_pieces q_buf q_prod q_inbuf q_dec q_size q_put].
+        split; [rewrite Hf; now rewrite app_assoc|]. split; [exact Hc|]. split; [|exact Hnp].
+        intros Hprod. destruct (Hp Hprod) as [Hr [Hd [Hfin Hsz]]]. subst. auto.
+  - now apply intake_invB.
+  - (* QAbort *)
+    destruct (q_prod q) eqn:P; [|exact IB]. destruct clen as [n|]; cbn [invB] in *.
+    + destruct IB as [Hm [Hs [Hle [rest [Hf Hp]]]]]. cbn [q_chunked_in q_size q_put q_prod]. repeat split; auto.
+      exists rest. split; [exact Hf|discriminate].
+    + destruct IB as [Hm [consumed [rest [dd [Hf [Hc [Hp Hnp]]]]]]]. cbn [q_chunked_in]. split; [exact Hm|].
+      exists consumed, rest, dd. unfold produced in *. cbn [q_pieces q_buf q_prod q_size q_put].
+      repeat split; auto; try discriminate. intros _. right. now destruct (Hp P) as [_ [_ [_ Hsz]]].
+  - (* QNote *)
+    destruct (q_prod q) eqn:P; [exact IB|]. destruct clen as [n|]; cbn [invB] in *.
+    + destruct IB as [Hm [Hs [Hle [rest [Hf Hp]]]]]. cbn [q_chunked_in q_size q_put q_prod]. repeat split; auto.
+      exists rest. split; [exact Hf|discriminate].
+    + destruct IB as [Hm [consumed [rest [dd [Hf [Hc [Hp Hnp]]]]]]]. cbn [q_chunked_in]. split; [exact Hm|].
+      exists consumed, rest, dd. unfold produced in *. cbn [q_pieces q_buf q_prod q_size q_put].
+      repeat split; auto; try discriminate; try (intros _; rewrite P in Hnp; now apply Hnp).
+  - (* QGet *)
+    destruct (q_abort q); [exact IB|]. destruct (q_buf q) as [|c r] eqn:B.
+    + destruct up; [exact IB|]. destruct (q_whole q && negb (q_last q)); [|exact IB].
+      destruct clen as [n|]; cbn [invB] in *; unfold produced in *; cbn [q_pieces q_buf q_chunked_in q_size q_put q_prod q_inbuf q_dec];
+        rewrite B in IB; exact IB.
+    + assert (Hprod : concat (q_pieces q ++ [c :: r]) ++ [] = concat (q_pieces q) ++ c :: r)
+        by (now rewrite concat_snoc, app_nil_r).
+      destruct clen as [n|]; cbn [invB] in *; unfold produced in *;
+        cbn [q_pieces q_buf q_chunked_in q_size q_put q_prod q_inbuf q_dec]; rewrite B in IB; rewrite Hprod; exact IB.
+Qed.
+
+Lemma fed_of_cons e evs : fed_of (e :: evs) = ev_bytes e ++ fed_of evs.
+Proof. reflexivity. Qed.
+
+Lemma run_invB cap up clen evs : forall q fed,
+  invA q -> invB clen q fed -> invB clen (rq_from cap up q evs) (fed ++ fed_of evs).
+Proof.
+  induction evs as [|e evs IH]; intros q fed IA IB.
+  - cbn. now rewrite app_nil_r.
+  - unfold rq_from in *. cbn [fold_left]. rewrite fed_of_cons, app_assoc.
+    apply IH; [now apply step_invA|now apply step_invB].
+Qed.
+
+Definition clen_ok (clen : option N) : Prop := match clen with Some n => 1 <= n | None => True end.
+
+Lemma run_inv cap up clen evs : clen_ok clen ->
+  invA (rq_run cap up clen evs) /\ invB clen (rq_run cap up clen evs) (fed_of evs).
+Proof.
+  intros H. split; [apply run_invA, invA_init|].
+  change (fed_of evs) with ([] ++ fed_of evs). apply run_invB; [apply invA_init|now apply invB_init].
+Qed.
+
+(* Content-Length client body: produced bytes are a prefix of the first n bytes the client sent; whole => all n *)
+Theorem produced_prefix_len cap up n evs : 1 <= n ->
+  let q := rq_run cap up (Some n) evs in
+  (exists rest, takeN n (fed_of evs) = produced q ++ rest) /\
+  (q_whole q = true -> produced q = takeN n (fed_of evs) /\ n <= lenN (fed_of evs)).
+Proof.
+  intros Hn q. destruct (run_inv cap up (Some n) evs Hn) as [IA IB]. fold q in IA, IB.
+  cbn [invB] in IB. destruct IB as [Hm [Hs [Hle [rest [Hf Hp]]]]].
+  assert (Hl : lenN (produced q) = q_put q).
+  { unfold produced. rewrite lenN_app. destruct IA as [Hg Hpt _ _ _ _]. lia. }
+  split.
+  - exists (takeN (n - q_put q) rest). rewrite Hf, takeN_app, takeN_all by lia. now rewrite Hl.
+  - intros W. destruct (a_whole q IA W) as [_ Hsz]. rewrite Hs in Hsz. inversion Hsz as [Hn'].
+    rewrite Hf, takeN_app, takeN_all by lia. rewrite Hl, <- Hn', N.sub_diag, takeN_0, app_nil_r.
+    split; [reflexivity|]. rewrite lenN_app. lia.
+Qed.
+
+(* chunked client body: produced bytes are a prefix of what the reference reader decodes from the client's bytes;
+   whole => the reference reader finds the message complete with exactly that body *)
+Theorem produced_prefix_chunked cap up evs :
+  let q := rq_run cap up None evs in
+  (exists d o2 r, crun CSize0 (fed_of evs) = (d, produced q ++ o2, r)) /\
+  (q_whole q = true -> exists r, crun CSize0 (fed_of evs) = (CDone, produced q, r)).
+Proof.
+  intros q. destruct (run_inv cap up None evs I) as [IA IB]. fold q in IA, IB.
+  cbn [invB] in IB. destruct IB as [Hm [consumed [rest [dd [Hf [Hc [Hp Hnp]]]]]]].
+  split.
+  - rewrite Hf, crun_app, Hc. cbn [app]. destruct (crun dd rest) as [[s2 o2] r2]. now exists s2, o2, r2.
+  - intros W. destruct (a_whole q IA W) as [Hprod Hsz]. destruct (Hnp Hprod) as [[_ Hd]|Hnone]; [|congruence].
+    subst dd. rewrite Hf, crun_app, Hc. cbn [app]. rewrite crun_final by reflexivity. exists rest. now rewrite app_nil_r.
+Qed.
+
+(* upstream completeness is exactness. Chunked upstream: once last-chunk is out, the reference reader decodes the
+   upstream stream, complete, to exactly the client's body *)
+Theorem upstream_complete_exact_chunked cap evs clen : clen_ok clen ->
+  let q := rq_run cap UpChunked clen evs in
+  q_last q = true ->
+  exists body, crun CSize0 (up_stream UpChunked q) = (CDone, body, []) /\
+    match clen with
+    | Some n => body = takeN n (fed_of evs) /\ n <= lenN (fed_of evs)
+    | None => exists r, crun CSize0 (fed_of evs) = (CDone, body, r)
+    end.
+Proof.
+  intros Hok q HL. assert (F := upstream_framing_valid cap UpChunked clen evs). cbn zeta in F. fold q in F.
+  rewrite HL in F. exists (concat (q_pieces q)). split; [exact F|].
+  destruct (last_chunk_only_when_whole cap UpChunked clen evs HL) as [W [B _]]. fold q in W, B.
+  assert (Hpr : produced q = concat (q_pieces q)) by (unfold produced; rewrite B; apply app_nil_r).
+  destruct clen as [n|].
+  - destruct (produced_prefix_len cap UpChunked n evs Hok) as [_ H]. fold q in H. rewrite <- Hpr. now apply H.
+  - destruct (produced_prefix_chunked cap UpChunked evs) as [_ H]. fold q in H. rewrite <- Hpr. now apply H.
+Qed.
+
+(* Content-Length upstream (Content-Length client): the stream is always a prefix of the client's first n bytes and
+   reaches the declared length only as exactly those n bytes *)
+Theorem upstream_len_exact cap n evs : 1 <= n ->
+  let q := rq_run cap (UpLen n) (Some n) evs in
+  (exists rest, takeN n (fed_of evs) = up_stream (UpLen n) q ++ rest) /\
+  (lenN (up_stream (UpLen n) q) = n -> up_stream (UpLen n) q = takeN n (fed_of evs) /\ n <= lenN (fed_of evs)).
+Proof.
+  intros Hn q. destruct (produced_prefix_len cap (UpLen n) n evs Hn) as [[rest Hr] _]. fold q in Hr.
+  unfold up_stream. unfold produced in Hr. split.
+  - exists (q_buf q ++ rest). now rewrite Hr, app_assoc.
+  - intros Hl. assert (Ht : lenN (takeN n (fed_of evs)) = N.min n (lenN (fed_of evs))) by apply lenN_takeN.
+    rewrite Hr, !lenN_app in Ht.
+    assert (Hb : q_buf q = []) by (apply lenN_nil_iff; lia).
+    assert (Hrest : rest = []) by (apply lenN_nil_iff; lia).
+    rewrite Hr, Hb, Hrest, !app_nil_r. split; [reflexivity|lia].
+Qed.
+
+(* a client body that never completes (abort, or malformed chunking) never completes upstream *)
+Theorem upstream_abort_visible cap up clen evs : clen_ok clen ->
+  match clen with
+  | Some n => lenN (fed_of evs) < n
+  | None => cst_done (fst (fst (crun CSize0 (fed_of evs)))) = false
+  end ->
+  let q := rq_run cap up clen evs in
+  q_whole q = false /\ q_last q = false /\
+  match up with UpLen m => clen = Some m -> lenN (up_stream up q) < m | UpChunked => True end.
+Proof.
+  intros Hok Hshort q.
+  assert (W : q_whole q = false).
+  { destruct (q_whole q) eqn:W; [|reflexivity]. destruct clen as [n|].
+    - destruct (produced_prefix_len cap up n evs Hok) as [_ H]. fold q in H. destruct (H W). lia.
+    - destruct (produced_prefix_chunked cap up evs) as [_ H]. fold q in H. destruct (H W) as [r Hr].
+      rewrite Hr in Hshort. discriminate. }
+  split; [exact W|].
+  assert (IA : invA q) by (apply run_invA, invA_init).
+  split.
+  - destruct (q_last q) eqn:L; [|reflexivity]. destruct (a_last q IA L). congruence.
+  - destruct up as [m|]; [|exact I]. intros ->.
+    destruct (produced_prefix_len cap (UpLen m) m evs Hok) as [[rest Hr] _]. fold q in Hr.
+    assert (Ht : lenN (takeN m (fed_of evs)) = N.min m (lenN (fed_of evs))) by apply lenN_takeN.
+    unfold up_stream. unfold produced in Hr. rewrite Hr, !lenN_app in Ht. lia.
+Qed.
+
+(* once the client's body has been produced completely, end notification + two consumer turns flush everything *)
+Theorem end_of_body_is_flushed cap up clen evs :
+  let q := rq_run cap up clen evs in
+  q_prod q = false -> q_size q = Some (q_put q) -> q_abort q = false ->
+  let q' := rq_from cap up q [QNote; QGet; QGet] in
+  q_buf q' = [] /\ concat (q_pieces q') = produced q /\ q_whole q' = true /\
+  match up with UpChunked => q_last q' = true | UpLen _ => True end.
+Proof.
+  intros q P S Ab. assert (IA : invA q) by (apply run_invA, invA_init).
+  assert (Hl : q_last q = true -> q_buf q = []) by (intros L; now destruct (a_last q IA L)).
+  clearbody q. clear IA. destruct q as [ci inb dec buf put get size prod whole abort pieces last].
+  cbn [q_prod q_size q_put q_abort q_last q_buf] in P, S, Ab, Hl. subst prod size abort.
+  unfold rq_from, produced. cbn [fold_left rq_step q_prod q_size q_put q_abort q_buf q_whole q_last q_pieces
+                                 q_chunked_in q_inbuf q_dec q_get negb].
+  rewrite N.eqb_refl. cbn [negb orb]. rewrite !orb_true_r. cbn [orb].
+  destruct buf as [|c r].
+  - destruct up as [m|]; cbn [q_abort q_buf q_whole q_last q_pieces andb negb].
+    + rewrite app_nil_r. auto.
+    + destruct last; cbn [negb andb q_abort q_buf q_whole q_last q_pieces]; rewrite app_nil_r; auto.
+  - assert (last = false) by (destruct last; [specialize (Hl eq_refl); discriminate|reflexivity]). subst last.
+    destruct up as [m|]; cbn [q_abort q_buf q_whole q_last q_pieces andb negb orb];
+      rewrite concat_snoc; auto.
+Qed.
